@@ -484,10 +484,49 @@ def concurrent_add(ctx, flavour='cleanup'):
     ctx.coverage['concurrent_add_cases'] = len(cases)
 
 
+def close_after_rejection(ctx):
+    """close() after add_signal calls that were rejected by panic (forbidden, negative, >= 128) or by
+    error (numbers the OS refuses): it must not panic, is_closed must be true, a consumer that starts
+    afterwards must come back from wait() and its forever() must end, a second close is harmless."""
+    rnd = random.Random(ctx.seed * 31 + 1112)
+    panicking, erroring = [9, 19, 4, 8, 11, -1, -7, 128, 200, 1000], [0, 32, 33, 65, 100, 127]
+    cases = [(e, via, sigs) for e in (0, 1) for via in (0, 1) for sigs in ([], [9], [19, 4], [-1], [200], [0], [65, 0], [9, 65, -1, 12])]
+    for _ in range(30):
+        k = rnd.randint(1, 5)
+        cases.append((rnd.randint(0, 1), rnd.randint(0, 1), [rnd.choice(panicking + erroring + [12, 10]) for _ in range(k)]))
+    inp = ''.join('%d %d %d %s\n' % (e, via, len(sg), ' '.join(map(str, sg))) for e, via, sg in cases)
+    rc, out, _ = common.sh([common.bin_path('p_closeafter')], input=inp.encode(), timeout=600)
+    lines = [l for l in out.split('\n') if l.strip()]
+    bad_run = 0
+    for (e, via, sg), l in zip(cases, lines):
+        ctx.evaluations += 1
+        left, _, how = l.partition(' | ')
+        p = left.split()
+        key = {'close_after': sg, 'exf': e, 'via': via}
+        case = {'exfiltrator': ['SignalOnly', 'WithRawSiginfo'][e], 'close_through': ['a fresh handle', 'a handle taken before the additions'][via],
+                'add_signal_attempts': sg, 'observed': l, 'replay': 'echo "%d %d %d %s" | harness/target/debug/p_closeafter' % (e, via, len(sg), ' '.join(map(str, sg)))}
+        if len(p) != 6 or how.strip() != 'exit:0':
+            if how.strip() in ('timeout',) or how.strip().startswith('sig:'):
+                ctx.violation(key, 'after add_signal attempts %s the close/wait/forever sequence did not run to its end: %s' % (sg, l), case)
+            else:
+                bad_run += 1
+            continue
+        rej, cpan, closed, wret, fend, second = map(int, p)
+        ctx.distinct.add(('close-after', e, via, tuple(sg)))
+        if cpan or not closed or not wret or not fend or second:
+            ctx.violation(key, 'after add_signal attempts %s (%d rejected): close() %s, is_closed() = %s, a later wait() %s, forever() %s, a second close() %s'
+                          % (sg, rej, 'PANICKED' if cpan else 'returned', bool(closed), 'returned' if wret else 'DID NOT RETURN', 'ended' if fend else 'DID NOT END',
+                             'PANICKED' if second else 'returned'), case)
+        else:
+            ctx.traces += 1
+    ctx.correspondence('close-after-rejection probe ran (p_closeafter)', bad_run == 0 and rc == 0, out[-500:] if bad_run or rc else None)
+    ctx.coverage['close_after_rejection_cases'] = len(cases)
+
+
 def run(ctx, only=None):
     ctx.trusted_base = TB
     ctx.assumptions = ASSUME
-    if not ctx.harness(['p_c12', 'ls_addsig']):
+    if not ctx.harness(['p_c12', 'ls_addsig', 'p_closeafter']):
         return
     ctx.translate(COMPONENTS)
     ctx.prove('props/C12.v')
@@ -565,6 +604,7 @@ def run(ctx, only=None):
     ctx.coverage['histories'] = len(hists)
     if only is None:
         concurrent_add(ctx)
+        close_after_rejection(ctx)
     ctx.coverage['outcome_histogram'] = hist_outcomes(hists, impl)
 
 
